@@ -181,5 +181,22 @@ def run_case(cfg):
     viol = []
     if not (rel <= 100 * eps):
         viol.append(V(site + '.residual_exceeds_100eps', 'residual %.3e eps %.1e cfg %s' % (rel, eps, cfg)))
+    if x0 is not None and not viol and cfg['solver'] != 'bicgstab':
+        # the SAME guess object warm-starts a second solve with another right-hand side (several right-hand sides, one x0):
+        # whatever the first call did with the caller's guess must not reach the second
+        sb2 = space.tensor_struct(N, [1] + [cfg['rhs'] + 1] * (d - 1) + [1], 'f64', 'gauss')
+        b2 = build(sb2, 'b2', 0)[0]
+        b2d = ref.contract(b2.cores).reshape(n)
+        torch.manual_seed(cfg['seed'])
+        np.random.seed(cfg['seed'])
+        res2, e2 = call(lambda: torchtt.solvers.amen_solve(A, b2, **kw))
+        if e2 is not None:
+            viol.append(V(site + '.second_call_same_x0.raises_' + exc_name(e2), repr(e2)))
+        elif not isinstance(res2, TT) or res2.is_ttm or list(res2.N) != N:
+            viol.append(V(site + '.second_call_same_x0.shape', '%s N=%s' % (type(res2).__name__, getattr(res2, 'N', None))))
+        else:
+            rel2 = float(torch.linalg.norm(Ad @ ref.contract(res2.cores).reshape(n) - b2d) / torch.linalg.norm(b2d))
+            if not (rel2 <= 100 * eps):
+                viol.append(V(site + '.second_call_same_x0.residual_exceeds_100eps', 'residual %.3e eps %.1e cfg %s' % (rel2, eps, cfg)))
     return Outcome(key, nt, 'res/eps=1e%d' % int(np.floor(np.log10(max(rel / eps, 1e-30)))), violations=viol,
                    extra={'ratio_gt_10': int(rel > 10 * eps)})
